@@ -3,8 +3,8 @@ use dashmap::{DashMap, Entry, mapref::one::RefMut};
 use metrics::histogram;
 use revm::{Database, DatabaseCommit, DatabaseRef};
 use revm_database::{
-    AccountStatus, BundleState, CacheState, PlainAccount, StorageWithOriginalValues,
-    TransitionAccount, TransitionState,
+    AccountStatus, BundleState, CacheState, DatabaseCommitExt, PlainAccount,
+    StorageWithOriginalValues, TransitionAccount, TransitionState,
     states::{CacheAccount, bundle_state::BundleRetention, plain_account::PlainStorage},
 };
 use revm_primitives::{Address, B256, U256};
@@ -527,23 +527,6 @@ impl<'a, DB: DatabaseRef> ParallelStateView<'a, DB> {
         }
     }
 
-    fn increment_balance_transitions(
-        self,
-        balances: impl IntoIterator<Item = (Address, u128)>,
-    ) -> Result<Vec<(Address, TransitionAccount)>, DB::Error> {
-        let mut transitions = Vec::new();
-        for (address, balance) in balances {
-            if balance == 0 {
-                continue;
-            }
-            let mut account = self.load_mut_cache_account(address)?;
-            let transition =
-                account.increment_balance(balance).expect("balance was checked as non-zero");
-            transitions.push((address, transition));
-        }
-        Ok(transitions)
-    }
-
     fn db_basic(self, address: Address) -> Result<Option<AccountInfo>, DB::Error> {
         #[cfg(grevm_verif)]
         crate::verif::sched_point("cache.basic.probe");
@@ -775,39 +758,27 @@ impl<DB: DatabaseRef> ParallelState<DB> {
     ///
     /// Update will create transitions for all accounts that are updated.
     ///
-    /// Like [CacheAccount::increment_balance], this assumes that incremented balances are not
-    /// zero, and will not overflow once incremented. If using this to implement withdrawals, zero
-    /// balances must be filtered out before calling this function.
+    /// This is revm's [`DatabaseCommitExt::increment_balances`]: every listed account is loaded,
+    /// credited (saturating), marked touched and committed like transaction output, so it behaves
+    /// exactly as `revm_database::State` does for the same call (including state clearing of a
+    /// touched account that stays empty). If using this to implement withdrawals, zero amounts
+    /// must be filtered out before calling this function.
     pub fn increment_balances(
         &mut self,
         balances: impl IntoIterator<Item = (Address, u128)>,
     ) -> Result<(), DB::Error> {
-        let transitions = self.shared_view().increment_balance_transitions(balances)?;
-        self.apply_transition(transitions);
-        Ok(())
+        DatabaseCommitExt::increment_balances(self, balances)
     }
 
     /// Drain balances from given account and return those values.
     ///
-    /// It is used for DAO hardfork state change to move values from given accounts.
+    /// It is used for DAO hardfork state change to move values from given accounts. This is
+    /// revm's [`DatabaseCommitExt::drain_balances`], see [`Self::increment_balances`].
     pub fn drain_balances(
         &mut self,
         addresses: impl IntoIterator<Item = Address>,
     ) -> Result<Vec<u128>, DB::Error> {
-        // make transition and update cache state
-        let mut transitions = Vec::new();
-        let mut balances = Vec::new();
-        for address in addresses {
-            let mut original_account = self.load_mut_cache_account(address)?;
-            let (balance, transition) = original_account.drain_balance();
-            balances.push(balance);
-            transitions.push((address, transition))
-        }
-        // append transition
-        if let Some(s) = self.transition_state.as_mut() {
-            s.add_transitions(transitions)
-        }
-        Ok(balances)
+        DatabaseCommitExt::drain_balances(self, addresses)
     }
 
     /// Insert non-existent account
@@ -930,6 +901,17 @@ impl<DB: DatabaseRef> DatabaseRef for ParallelState<DB> {
 impl<DB: DatabaseRef> DatabaseCommit for ParallelState<DB> {
     fn commit(&mut self, evm_state: revm_primitives::AddressMap<Account>) {
         let transitions = self.cache.apply_evm_state(evm_state);
+        self.apply_transition(transitions);
+    }
+
+    /// Like revm `State`, apply every entry in order instead of first collapsing repeated
+    /// addresses into a map (the trait's default).
+    fn commit_iter(&mut self, changes: &mut dyn Iterator<Item = (Address, Account)>) {
+        let transitions = changes
+            .filter_map(|(address, account)| {
+                self.cache.apply_account_state(address, account).map(|t| (address, t))
+            })
+            .collect();
         self.apply_transition(transitions);
     }
 }
